@@ -17,7 +17,13 @@
 EXTENDS RtProps, TLC
 
 CONSTANTS NArb,      \* worker arbiters 1..NArb (0 is the system arbiter)
-          NThr,      \* client threads
+          Thr,       \* client threads (model values; symmetric)
+          PreCreated,\* worker arbiters 1..PreCreated exist and are registered initially
+          Kinds,     \* subset of {"spawn", "spawn_fn"}
+          TaskStop,  \* tasks may call System::stop_with_code
+          EagerJoin, \* TRUE: join is observed as soon as the thread exits
+          AtomicCalls, \* TRUE: a client call is one step (interval shrunk to its linearization point; every
+                     \* predicate of RtProps is antitone in the interval width, so this is the strongest case)
           MaxCmds,   \* client calls in total
           MaxSys,    \* System::stop_with_code calls in total (clients + tasks)
           Codes,     \* exit codes
@@ -33,19 +39,22 @@ VARIABLES thr,      \* client thread -> [pc, cmd, ok]
           oneshot,  \* -1 empty, else the code
           runst,    \* "running" | "returned"
           arb,      \* 0..NArb -> [loop, cmdq, localq, busy, stopping]
-          ntask, ncmd, nsys,
+          ntask,    \* arb -> number of tasks sent to it (task id = 10 * arb + n: canonical per arbiter)
+          ncmd, nsys,
           act       \* label of the last step
 \* h (history) comes from RtProps
 
 vars == <<thr, tasks, sysq, ctrl, oneshot, runst, arb, ntask, ncmd, nsys, h, act>>
+View == <<thr, tasks, sysq, ctrl, oneshot, runst, arb, ntask, ncmd, nsys, h>>
+ThrSym == Permutations(Thr)
 
-Thr == 1..NThr
 Arbs == 0..NArb
 Workers == 1..NArb
 SysTid == 50
 ArbTid(a) == IF a = 0 THEN SysTid ELSE 60 + a
 TheSysId == 1
 
+NextId(a) == 10 * a + ntask[a] + 1
 NoCmd == [op |-> "none", arb |-> 0, id |-> 0, kind |-> "", body |-> "", code |-> 0]
 A(name, x, y) == [name |-> name, x |-> x, y |-> y]
 
@@ -53,12 +62,13 @@ Init ==
   /\ thr = [t \in Thr |-> [pc |-> "idle", cmd |-> NoCmd, ok |-> TRUE]]
   /\ tasks = EmptyFn
   /\ sysq = <<>>
-  /\ ctrl = [alive |-> TRUE, registry |-> {0}, codeSent |-> FALSE, half |-> FALSE]
+  /\ ctrl = [alive |-> TRUE, registry |-> 0..PreCreated, codeSent |-> FALSE, half |-> FALSE]
   /\ oneshot = -1 /\ runst = "running"
-  /\ arb = [a \in Arbs |-> [loop |-> IF a = 0 THEN "run" ELSE "none", cmdq |-> <<>>, localq |-> <<>>,
+  /\ arb = [a \in Arbs |-> [loop |-> IF a <= PreCreated THEN "run" ELSE "none", cmdq |-> <<>>, localq |-> <<>>,
                             busy |-> FALSE, stopping |-> FALSE]]
-  /\ ntask = 1 /\ ncmd = 0 /\ nsys = 0
-  /\ h = H_BlockOn([HInit EXCEPT !.clients = Thr \cup {SysTid}, !.sysTid = SysTid, !.sysId = TheSysId],
+  /\ ntask = [a \in Arbs |-> 0] /\ ncmd = 0 /\ nsys = 0
+  /\ h = H_BlockOn([HInit EXCEPT !.clients = Thr \cup {SysTid}, !.sysTid = SysTid, !.sysId = TheSysId,
+                                 !.created = 1..PreCreated],
                    5, IF BlockOnExact THEN 5 ELSE 6)
   /\ act = A("init", 0, 0)
 
@@ -69,20 +79,20 @@ CanStep(a) == RxAlive(a) /\ ~arb[a].busy /\ (a = 0 => runst = "running")
 (* ---------------------------- clients ---------------------------- *)
 Bodies(kind) == IF kind = "spawn"
                   THEN {[body |-> "done", code |-> 0]} \cup
-                       (IF nsys < MaxSys THEN {[body |-> "sys", code |-> c] : c \in Codes} ELSE {})
+                       (IF TaskStop /\ nsys < MaxSys THEN {[body |-> "sys", code |-> c] : c \in Codes} ELSE {})
                   ELSE {[body |-> "done", code |-> 0]} \cup
                        (IF AllowBusy THEN {[body |-> "busy", code |-> 0]} ELSE {})
 
 IssueSpawn(t) ==
-  \E a \in Arbs, kind \in {"spawn", "spawn_fn"} : \E b \in Bodies(kind) :
+  \E a \in Arbs, kind \in Kinds : \E b \in Bodies(kind) :
     /\ arb[a].loop # "none"
     /\ thr' = [thr EXCEPT ![t] = [pc |-> "call", ok |-> TRUE,
-                 cmd |-> [op |-> "send", arb |-> a, id |-> ntask, kind |-> kind, body |-> b.body, code |-> b.code]]]
-    /\ tasks' = Put(tasks, ntask, [arb |-> a, kind |-> kind, body |-> b.body, code |-> b.code])
-    /\ ntask' = ntask + 1
+                 cmd |-> [op |-> "send", arb |-> a, id |-> NextId(a), kind |-> kind, body |-> b.body, code |-> b.code]]]
+    /\ tasks' = Put(tasks, NextId(a), [arb |-> a, kind |-> kind, body |-> b.body, code |-> b.code])
+    /\ ntask' = [ntask EXCEPT ![a] = @ + 1]
     /\ nsys' = IF b.body = "sys" THEN nsys + 1 ELSE nsys
-    /\ h' = H_SendStart(h, ntask, a, t, kind)
-    /\ act' = A("SendStart", t, ntask)
+    /\ h' = H_SendStart(h, NextId(a), a, t, kind)
+    /\ act' = A("SendStart", t, NextId(a))
 
 IssueStop(t) ==
   \E a \in Workers :
@@ -102,7 +112,7 @@ IssueSysStop(t) ==
     /\ UNCHANGED <<tasks, ntask>>
 
 Issue(t) ==
-  /\ thr[t].pc = "idle" /\ ncmd < MaxCmds
+  /\ ~AtomicCalls /\ thr[t].pc = "idle" /\ ncmd < MaxCmds
   /\ ncmd' = ncmd + 1
   /\ (IssueSpawn(t) \/ IssueStop(t) \/ IssueSysStop(t))
   /\ UNCHANGED <<sysq, ctrl, oneshot, runst, arb>>
@@ -140,6 +150,38 @@ SendEnd(t) ==
             [] c.op = "sysstop" -> H_SysStopEnd(h)
   /\ act' = A("SendEnd", t, c.id)
   /\ UNCHANGED <<tasks, sysq, ctrl, oneshot, runst, arb, ntask, ncmd, nsys>>
+
+
+\* a whole call in one step (start, push, return)
+CallAtomic(t) ==
+  /\ AtomicCalls /\ ncmd < MaxCmds /\ ncmd' = ncmd + 1
+  /\ \/ \E a \in Arbs, kind \in Kinds : \E b \in Bodies(kind) :
+          LET inline == ~RunOnArbiterThread /\ kind = "spawn_fn"
+              ok == inline \/ RxAlive(a) \/ ~SendFailsWhenGone
+              id == NextId(a)
+              h1 == H_SendStart(h, id, a, t, kind)
+              h2 == IF inline THEN H_TaskStart(h1, id, a, t, "ok", TheSysId) ELSE h1 IN
+          /\ arb[a].loop # "none"
+          /\ tasks' = Put(tasks, id, [arb |-> a, kind |-> kind, body |-> b.body, code |-> b.code])
+          /\ ntask' = [ntask EXCEPT ![a] = @ + 1]
+          /\ nsys' = IF b.body = "sys" THEN nsys + 1 ELSE nsys
+          /\ arb' = IF RxAlive(a) /\ ~inline THEN [arb EXCEPT ![a].cmdq = Append(@, [k |-> "exec", id |-> id])] ELSE arb
+          /\ h' = H_SendEnd(h2, id, ok)
+          /\ act' = A("Send", t, id)
+          /\ UNCHANGED sysq
+     \/ \E a \in Workers :
+          /\ arb[a].loop # "none"
+          /\ arb' = IF RxAlive(a) THEN [arb EXCEPT ![a].cmdq = Append(@, [k |-> "stop", id |-> 0])] ELSE arb
+          /\ h' = H_StopEnd(H_StopStart(h, a), a)
+          /\ act' = A("StopCall", t, a)
+          /\ UNCHANGED <<tasks, ntask, nsys, sysq>>
+     \/ \E c \in Codes :
+          /\ nsys < MaxSys /\ nsys' = nsys + 1
+          /\ sysq' = IF ctrl.alive THEN Append(sysq, [k |-> "exit", v |-> c]) ELSE sysq
+          /\ h' = H_SysStopEnd(H_SysStopStart(h, c))
+          /\ act' = A("SysStop", t, c)
+          /\ UNCHANGED <<tasks, ntask, arb>>
+  /\ UNCHANGED <<thr, ctrl, oneshot, runst>>
 
 \* Arbiter::new(): thread spawned, Reg sent, then new() returns (arbiter.rs:136-153)
 NewArbiter ==
@@ -197,11 +239,13 @@ ArbDeregister(a) ==
   /\ a # 0 /\ arb[a].loop = "ended"
   /\ arb' = [arb EXCEPT ![a].loop = "exited"]
   /\ sysq' = IF ctrl.alive THEN Append(sysq, [k |-> "dereg", v |-> a]) ELSE sysq
+  \* the thread exits: join returns (observed at the earliest moment, which is the strongest case)
+  /\ h' = IF EagerJoin /\ ~Has(h.joined, a) /\ a \notin h.earlyTimeout THEN H_Join(h, a, TRUE) ELSE h
   /\ act' = A("ArbDeregister", a, 0)
-  /\ UNCHANGED <<thr, tasks, ctrl, oneshot, runst, ntask, ncmd, nsys, h>>
+  /\ UNCHANGED <<thr, tasks, ctrl, oneshot, runst, ntask, ncmd, nsys>>
 
 JoinReturn(a) ==
-  /\ a # 0 /\ ~Has(h.joined, a) /\ a \notin h.earlyTimeout
+  /\ a # 0 /\ (~EagerJoin \/ ~JoinWaitsExit) /\ ~Has(h.joined, a) /\ a \notin h.earlyTimeout
   /\ (arb[a].loop = "exited" \/ (~JoinWaitsExit /\ arb[a].loop = "run"))
   /\ h' = H_Join(h, a, TRUE)
   /\ act' = A("JoinReturned", a, 0)
@@ -261,7 +305,7 @@ Internal == \/ \E t \in Thr : Enq(t) \/ SendEnd(t)
             \/ \E a \in Arbs : ArbDequeue(a) \/ ArbDrainEnd(a) \/ ArbStartTask(a) \/ ArbYield(a) \/ ArbDeregister(a)
             \/ CtrlStep \/ RunReturn
 Next == \/ Internal
-        \/ \E t \in Thr : Issue(t)
+        \/ \E t \in Thr : Issue(t) \/ CallAtomic(t)
         \/ NewArbiter
         \/ \E a \in Workers : JoinReturn(a) \/ JoinTimeout(a)
 
